@@ -19,7 +19,8 @@ From Tickit Require Import LoopDefs LoopSpec LoopSigDefs.
 Import ListNotations.
 Local Open Scope Z_scope.
 
-Record xio := mkXio { xi_id : Z; xi_fd : Z; xi_cond : Z; xi_unbind : bool; xi_cb : Z }.
+(* xi_ev = the poll events the watch asked for (IN / OUT / HUP as POLLIN / POLLOUT / POLLHUP) *)
+Record xio := mkXio { xi_id : Z; xi_fd : Z; xi_ev : Z; xi_unbind : bool; xi_cb : Z }.
 
 Record xst := mkX {
   x_ios : list xio; x_tab : list (option Z); x_sgs : list sgw; x_def : list ltr;
@@ -82,7 +83,7 @@ Definition x_action (s : xst) (a : saction) : xst :=
       mkX (x_ios s) (x_tab s) (x_sgs s) (x_def s ++ [mkLt (x_next s) ub cb]) (x_kpend s)
           (x_ready s) (x_inwait s) (x_next s + 1) (x_iter s) (x_log s)
   | SIo fd cond ub cb =>
-      mkX (x_ios s ++ [mkXio (x_next s) fd cond ub cb]) (tab_put (x_tab s) (x_next s)) (x_sgs s) (x_def s)
+      mkX (x_ios s ++ [mkXio (x_next s) fd (events_of_cond cond) ub cb]) (tab_put (x_tab s) (x_next s)) (x_sgs s) (x_def s)
           (x_kpend s) (x_ready s) (x_inwait s) (x_next s + 1) (x_iter s) (x_log s)
   | SSig sig ub cb =>
       mkX (x_ios s) (x_tab s) (x_sgs s ++ [mkSg (x_next s) sig ub cb]) (x_def s) (x_kpend s)
@@ -149,7 +150,7 @@ Definition io_snapshot (s : xst) : list (Z * Z) :=
         match find_xio id (x_ios s) with
         | None => []
         | Some w =>
-            let rv := Z.land (lookup_ready (x_ready s) (xi_fd w)) (Z.lor (events_of_cond (xi_cond w)) 56) in
+            let rv := Z.land (lookup_ready (x_ready s) (xi_fd w)) (Z.lor (xi_ev w) 56) in
             if rv =? 0 then [] else [(id, cond_of_revents rv)]
         end
     end) (x_tab s).
